@@ -220,6 +220,7 @@ def plan(tier, seed):
         ("cumulative2", None),
         ("cumulative3", b8),
         ("cumulative2_dur013", None),
+        ("cumulative2_dem02", None),
         ("cumulative3_dur013", b8),
         ("cumulative4_window03", (seed % 16, 16) if q else b4),
         ("cumulative3_window05", (seed % 16, 16) if q else b4),
